@@ -31,7 +31,7 @@ def run_groups(specs):
 
 
 def budget(tier):
-    return {"quick": 3, "thorough": 25}[tier]
+    return {"quick": 6, "thorough": 30}[tier]
 
 
 def explore(tier, seed, n):
